@@ -280,6 +280,41 @@ Definition get_txn_status (cache : list (ts * cstatus)) (txn : ts) (ans : cstatu
   | None => let v := cview ans in (v, if cacheable v then (txn, v) :: cache else cache, true)
   end.
 
+(* the loop around it (LockResolver.getTxnStatusFromLock): the status of the transaction that owns a lock the caller met.
+   li_age = milliseconds since the lock's start ts on the oracle's clock; the lock has expired iff ttl <= age
+   (UntilExpired <= 0). A TTL of 0 is the "resolve unconditionally" protocol: current ts = max. The store's answers are
+   scripted: a status triple or TxnNotFound (primary lock not written yet / already gone). On TxnNotFound: an expired lock
+   is asked again with rollback_if_not_exist; a live pessimistic lock is reported alive with its own TTL (never final);
+   a live prewrite lock is asked again after a back-off. *)
+Inductive ans := AnsStatus (v : cstatus) | AnsNotFound.
+Record lockinfo := mkLi { li_txn : ts; li_ttl : N; li_age : N; li_pess : bool }.
+Record sreq := mkReq { rq_rine : bool; rq_cur_max : bool; rq_pess : bool }.
+Definition li_expired (l : lockinfo) : bool := li_ttl l <=? li_age l.
+Inductive sres := SrStatus (v : cstatus) | SrScriptEnd.
+Fixpoint status_loop (fuel : nat) (cache : list (ts * cstatus)) (l : lockinfo) (script : list ans) (rine : bool)
+  : sres * list (ts * cstatus) * list sreq * list ans :=
+  match fuel with
+  | O => (SrScriptEnd, cache, [], script)
+  | S fuel' =>
+    match memo_get cache (li_txn l) with
+    | Some v => (SrStatus v, cache, [], script)
+    | None =>
+      let rq := mkReq rine (li_ttl l =? 0) (li_pess l) in
+      match script with
+      | [] => (SrScriptEnd, cache, [rq], [])
+      | AnsStatus a :: rest =>
+        let v := cview a in (SrStatus v, if cacheable v then (li_txn l, v) :: cache else cache, [rq], rest)
+      | AnsNotFound :: rest =>
+        if li_expired l then
+          let '(r, c, rqs, lft) := status_loop fuel' cache l rest true in (r, c, rq :: rqs, lft)
+        else if li_pess l then (SrStatus (li_ttl l, 0, ANoAction), cache, [rq], rest)
+        else let '(r, c, rqs, lft) := status_loop fuel' cache l rest rine in (r, c, rq :: rqs, lft)
+      end
+    end
+  end.
+Definition status_from_lock (cache : list (ts * cstatus)) (l : lockinfo) (script : list ans) :=
+  status_loop (S (length script)) cache l script false.
+
 (* ------------------------------------------------------------------ a pushed primary lock *)
 (* a command that changes nothing: a commit request the store refuses (commit ts below the lock's min_commit_ts, lock gone) *)
 Definition is_noop (st : store) (c : cmd) : bool :=
